@@ -37,9 +37,48 @@ def relayout(rng, d):
     return m
 
 
+def exotic_pairs(ctx, rng):
+    """instances of the public non-leaf classes (Term, BaseGroup, Unary, UnaryOperator, OpenRange, BaseOperation,
+    Item) as nodes: outside the Lean model, checked by the oracle only"""
+    I = common.impl()
+    T = I.tree
+    makers = {
+        "Term": lambda: T.Term(rng.choice(["foo", "a"])), "Word": lambda: T.Word(rng.choice(["foo", "a"])),
+        "Phrase": lambda: T.Phrase('"foo"'), "Item": lambda: T.Item(), "NoneItem": lambda: T.NoneItem(),
+        "BaseGroup": lambda: T.BaseGroup(leaf()), "Group": lambda: T.Group(leaf()), "FieldGroup": lambda: T.FieldGroup(leaf()),
+        "Unary": lambda: T.Unary(leaf()), "UnaryOperator": lambda: T.UnaryOperator(leaf()), "Plus": lambda: T.Plus(leaf()),
+        "Not": lambda: T.Not(leaf()), "OpenRange": lambda: T.OpenRange(leaf(), True), "From": lambda: T.From(leaf(), True),
+        "BaseOperation": lambda: T.BaseOperation(leaf(), leaf()), "AndOperation": lambda: T.AndOperation(leaf(), leaf()),
+    }
+
+    def leaf():
+        return rng.choice([T.Word("foo"), T.Term("foo"), T.Word("a")])
+
+    def fp(n):
+        return (type(n).__name__, getattr(n, "value", None), getattr(n, "include", None),
+                tuple(fp(c) for c in n.children))
+    names = sorted(makers)
+    for _ in range(60):
+        a, b = makers[rng.choice(names)](), makers[rng.choice(names)]()
+        wrap = rng.choice([None, "field", "group", "op"])
+        if wrap == "field":
+            a, b = T.SearchField("f", a), T.SearchField("f", b)
+        elif wrap == "group":
+            a, b = T.Group(a), T.Group(b)
+        elif wrap == "op":
+            a, b = T.OrOperation(T.Word("x"), a), T.OrOperation(T.Word("x"), b)
+        e1, e2 = bool(a == b), bool(b == a)
+        ctx.case(("exotic", repr(fp(a)), repr(fp(b))), nontrivial=True)
+        ctx.count("pair:base-class instances")
+        if e1 != (fp(a) == fp(b)) or e1 != e2:
+            ctx.fail("__eq__ on trees with instances of the public base classes: a == b is %s, b == a is %s, same "
+                     "types and content: %s" % (e1, e2, fp(a) == fp(b)), {"a": repr(fp(a)), "b": repr(fp(b))})
+
+
 def run(ctx):
     I = common.impl()
     rng = ctx.rng
+    exotic_pairs(ctx, rng)
     n = ctx.budget(400, 6000)
     tg = gen.TreeGen(rng, layout="partial", names=True, positions=True, none_items=0.05)
     qg = gen.QueryGen(rng)
@@ -63,7 +102,14 @@ def run(ctx):
                 b, how = m[0], "mut:" + m[1].split(" ")[0]
         else:
             b, how = tg.any(), "other"
-        pairs.append((common.normalize(a), common.normalize(b), how))
+        na, nb = common.normalize(a), common.normalize(b)
+        for orig, norm in ((a, na), (b, nb)):
+            probs = common.fidelity_problems(orig, norm)
+            if probs:
+                ctx.fail("an item built through the public constructor does not carry the content it was given "
+                         "(%s at %s: %r became %r)" % (probs[0][1], probs[0][0], probs[0][2], probs[0][3]),
+                         {"node": orig, "built": norm})
+        pairs.append((na, nb, how))
 
     # ---- implementation
     impl_eq = []
